@@ -169,9 +169,10 @@ func (r *qLogReader) seekRecord(ctx context.Context, olderThan time.Time) (err e
 	}
 
 	err = r.seekTS(ctx, olderThan.UnixNano())
-	if err == nil {
+	if err == nil && r.onRecord {
 		// Read to the next record, because we only need the one that goes
-		// after it.
+		// after it.  If the reader is at the start of the log instead, the
+		// newest record is already older than the requested time.
 		_, err = r.ReadNext()
 	}
 
